@@ -14,16 +14,39 @@ LIB_ERRORS = ('ParserError', 'UnparserError', 'RuleDescriptorMatchError', 'RuleI
 class Hang(Exception):
     pass
 
+_FIRED = False
 def _alarm(signum, frame):
+    global _FIRED
+    _FIRED = True
     raise Hang()
 
+HANGS = 0
+HANG_BUDGET = 4
+
 def guarded(f, seconds=5.0):
-    """run f() under a watchdog; returns ('ok', value) | ('err', ExceptionClassName) | ('err', 'hang')"""
+    """run f() under a watchdog; returns ('ok', value) | ('err', ExceptionClassName) | ('err', 'hang').
+    After HANG_BUDGET time-outs in one process further calls are not attempted (reported as 'hang-budget-exhausted'):
+    a change that makes the code loop is reported from the first hanging inputs instead of stalling the whole run."""
+    global HANGS, _FIRED
+    if HANGS >= HANG_BUDGET:
+        return ('err', 'hang-budget-exhausted')
+    _FIRED = False
+    r = _guarded(f, seconds)
+    if _FIRED:
+        # the watchdog fired: the call did not finish in time, even if the code swallowed the watchdog's exception
+        if r != ('err', 'hang'):
+            HANGS += 1
+        return ('err', 'hang')
+    return r
+
+def _guarded(f, seconds):
+    global HANGS
     old = signal.signal(signal.SIGALRM, _alarm)
     signal.setitimer(signal.ITIMER_REAL, seconds)
     try:
         return ('ok', f())
     except Hang:
+        HANGS += 1
         return ('err', 'hang')
     except RecursionError:
         return ('err', 'RecursionError')
